@@ -53,7 +53,8 @@ def handleMCTSPolicy : Handler := fun st op args =>
         | .error e => fmtErr e)
   | "pw.selr", [pol, _seed, ptok, qtok] =>
     some (st, withPos ptok fun p => withPos qtok fun q =>
-      if ((parsePolicy pol).mayReturn st.basis p.c p).any (fun x => fmtPos x == fmtPos q) then "member" else "not-member")
+      let qs := fmtPos q
+      if ((parsePolicy pol).mayReturn st.basis p.c p).any (fun x => fmtPos x == qs) then "member" else "not-member")
   | "pw.roll", [pol, maxr, thr, draws, ptok] =>
     match maxr.toNat?, thr.toInt?, parseDraws draws with
     | some maxr, some thr, some l =>
